@@ -19,22 +19,18 @@ def indices(s: slice, length: int) -> tuple[int, int | None, int]:
     return start, stop, step
 
 def offset_slice_indices_lsb0(key: slice, length: int) -> slice:
-    start, stop, step = indices(key, length)
-    if step is not None and step < 0:
-        if stop is None:
-            new_start = start + 1
-            new_stop = None
-        else:
-            first_element = start
-            last_element = start + ((stop + 1 - start) // step) * step
-            new_start = length - last_element
-            new_stop = length - first_element - 1
-    else:
-        first_element = start
-        # The last element will usually be stop - 1, but needs to be adjusted if step != 1.
-        last_element = start + ((stop - 1 - start) // step) * step
-        new_start = length - last_element - 1
-        new_stop = length - first_element
+    start, stop, step = key.indices(length)
+    count = len(range(start, stop, step))
+    if count == 0:
+        # An empty slice. Keep its position (it matters when assigning to it) by mirroring the start.
+        return slice(length - start, length - start, key.step)
+    # The LSB0 index i is the MSB0 index length - 1 - i. The mirrored slice starts at the last selected element,
+    # keeps the sign of the step (the result is stored in MSB0 order) and selects the same number of elements.
+    last_element = start + (count - 1) * step
+    new_start = length - 1 - last_element
+    new_stop = new_start + count * step
+    if new_stop < 0:
+        new_stop = None
     return slice(new_start, new_stop, key.step)
 
 
